@@ -17,7 +17,9 @@ Names == {"m", "k"}
 Sigs == {"I", "S"}
 Decl == [name : Names, sig : Sigs]
 MethodSets == {S \in SUBSET Decl : Cardinality(S) <= 2}
-File == [cls : {"P"}, ext : {FALSE}, methods : MethodSets] \cup [cls : {"C"}, ext : BOOLEAN, methods : MethodSets]
+\* prop: the type of the instance property `label` this file declares for its class ("" = none)
+File == [cls : {"P"}, ext : {FALSE}, methods : MethodSets, prop : {"", "I", "S"}]
+        \cup [cls : {"C"}, ext : BOOLEAN, methods : MethodSets, prop : {"", "I", "S"}]
 
 VARIABLE files
 PFiles == {f \in File : f.cls = "P"}
@@ -25,6 +27,8 @@ CFiles == {f \in File : f.cls = "C"}
 WellFormed(F) == /\ Cardinality(F) \in {2, 3}
                  /\ \E f \in F : f.cls = "C" /\ f.ext
                  /\ \A f, g \in F : (f # g /\ f.cls = g.cls) => f.methods \cap g.methods = {}
+                 /\ \A f, g \in F : (f # g /\ f.cls = g.cls) => (f.prop = "" \/ g.prop = "")     \* a property is declared once per class
+                 /\ Cardinality({f \in F : f.methods # {}}) + Cardinality({f \in F : f.prop # ""}) <= 3   \* (keeps the universe small)
 Init == files \in {F \in {{p, c} \cup x : p \in PFiles, c \in CFiles, x \in {{}} \cup {{f} : f \in File}} : WellFormed(F)}
 Next == UNCHANGED files
 Spec == Init /\ [][Next]_files
@@ -34,7 +38,11 @@ Own(c, n) == UNION {{d.sig : d \in {x \in f.methods : x.name = n}} : f \in {g \i
 Resolved(c, n) == IF Own(c, n) # {} THEN Own(c, n) ELSE IF c = "C" THEN Own("P", n) ELSE {}
 \* the reference is a function of the SET of files: it never mentions an order
 Accepts(c, n, a) == a \in Resolved(c, n)
+\* the property a read of c#label sees: the class's own declaration, else the parent's
+OwnProp(c) == {f.prop : f \in {g \in files : g.cls = c /\ g.prop # ""}}
+ResolvedProp(c) == IF OwnProp(c) # {} THEN OwnProp(c) ELSE IF c = "C" THEN OwnProp("P") ELSE {}
 SplitChild == Cardinality({f \in files : f.cls = "C"}) > 1
 EmitInv == PrintT(ToJson([files |-> files, split |-> SplitChild,
-                          res |-> [c \in {"P", "C"} |-> [n \in Names |-> Resolved(c, n)]]]))
+                          res |-> [c \in {"P", "C"} |-> [n \in Names |-> Resolved(c, n)]],
+                          prop |-> [c \in {"P", "C"} |-> ResolvedProp(c)]]))
 =============================================================================
